@@ -518,7 +518,10 @@ def run(v, tier, st, pr, pid):
         for text in ['Project "a\\nb" {\n}', 'TableGroup "a\\nb" {\n}', 'Table t {\n id int\n}\nTableGroup "g\\tx" {\n t\n}',
                      "Table t {\n id int [note: '  ']\n}", 'Table t {\n id "a.b.c"\n}', "Note n {\n'''\n\n'''\n}",
                      'Table t {\n id int\n}\nRef "{": t.id > t.id', 'Table t {\n id int\n}\nRef: t.id <> t.id // {x}', '', '// only a comment', '\ufeff', '\ufeffTable t {\n id int\n}',
-                     'Table t {\n id int [default: ' + '9' * 4301 + ']\n}', 'Table t {\n id int [default: ' + '9' * 4300 + ']\n}']:
+                     'Table t {\n id int [default: ' + '9' * 4301 + ']\n}', 'Table t {\n id int [default: ' + '9' * 4300 + ']\n}',
+                     # documents without any table
+                     'Ref: a.id > b.id', 'Ref r {\n a.id > b.id\n}', 'TableGroup g {\n a\n}', 'TableGroup g {\n}', 'Enum e {\n a\n}\nRef: a.id > b.id',
+                     "Project p {\n}\nNote n {\n 'x'\n}\nTableGroup g {\n s.a\n}", 'Enum e {\n a\n}', "Note n {\n ''\n}"]:
             cases.append(text)
             add_job(text, False, 'corpus')
         outs = pool_map(c08_job, cases)
